@@ -109,6 +109,18 @@ CHECKS = {
         'quick': {'shards': 16, 'timeout': 600},
         'thorough': {'shards': 16, 'timeout': 3600},
     },
+    'C14': {
+        'pkg': 'internal/multiplex', 'test': 'TestVerif_C14', 'level': 'exploration',
+        'technique': 'runtime monitor: exactly-once multiset oracle over tagged datagrams on real unordered session pairs with router-chosen arrival orders; oversize refusal checked on the wire tap; short-buffer read oracle',
+        'level_text': 'Unordered session pairs over 1..8 connections, 1..8 streams with concurrent senders in both directions, tagged self-describing datagrams (sizes around 8192 and the frame maximum, random others), arrival order chosen by the router or free-running with jitter; '
+                      'every received message must be byte-identical to a datagram written on that stream, at most once, and at quiescence on a healthy stream exactly once. A single-stream scenario sends every size 1..64, the boundary sizes and sizes above the maximum: '
+                      'oversize writes must fail without emitting a byte (wire tap), reads with buffers of size len-1, 1 and len/2 must fail without consuming, and the datagram must then be returned whole.',
+        'level_note': 'Assumes ' + A_RACE + ' and ' + A_HARNESS + '. Only the Stream boundary is decided here; the whole-system UDP path through client.RouteUDP over real sockets is not covered in this check.',
+        'rule': 'case = (method, connections, router policy/free-running, segmentation, per-stream lists of datagram sizes both ways) or a single-stream size sweep; distinct = hash of the case; non-trivial = at least one datagram each way compared byte for byte',
+        'assumptions': [A_RACE, A_HARNESS],
+        'quick': {'shards': 16, 'timeout': 600},
+        'thorough': {'shards': 16, 'timeout': 3600},
+    },
 }
 
 NOT_APPLICABLE = {p: 'check not built yet in this round (the design in DESIGN.md section 3 applies; runtime monitoring can decide it)'
